@@ -341,7 +341,11 @@ void generate_c08(Rng &r, const GenOpts &g, Plan &p) {
             }
         }
         stream += m;
-        if (i + 1 < nmsg || !r.chance(1, 8)) stream += gen_terminator(r);   // sometimes an unterminated tail
+        if (i + 1 < nmsg || !r.chance(1, 8)) {   // sometimes an unterminated tail
+            stream += gen_terminator(r);
+            // what telnet-style links put behind a line end: CR NUL for a bare carriage return, LF CR, doubled line ends
+            if (r.chance(1, 15)) stream += r.chance(1, 2) ? std::string(1, '\0') : (r.chance(1, 2) ? "\r" : "\n\r");
+        }
     }
     if (r.chance(1, 8)) {
         // long tokens and the one situation in which a later byte changes how earlier bytes are read: an open quoted string
